@@ -195,3 +195,37 @@ func splitN(s, sep string, n int) []string {
 	}
 	return out
 }
+
+// addPod / addNode with retries: the embedded etcd occasionally answers "request timed out"
+// when the machine is loaded; setup must not abort a whole run for that.
+func addPod(cl *ckit.Cluster, name string) {
+	var err error
+	for try := 0; try < 5; try++ {
+		if _, err = cl.C.AddPod(cl.Ctx(), name, ""); err == nil {
+			return
+		}
+		time.Sleep(200 * time.Millisecond)
+		if p, e := cl.C.GetPod(cl.Ctx(), name); e == nil && p != nil {
+			return
+		}
+	}
+	cl.T.Fatalf("AddPod %s: %v", name, err)
+}
+
+func addNodeOpts(cl *ckit.Cluster, o *types.AddNodeOptions) *types.Node {
+	var err error
+	var n *types.Node
+	for try := 0; try < 5; try++ {
+		if n, err = cl.C.AddNode(cl.Ctx(), o); err == nil {
+			return n
+		}
+		time.Sleep(200 * time.Millisecond)
+		if n, e := cl.C.GetNode(cl.Ctx(), o.Nodename); e == nil && n != nil {
+			return n
+		}
+	}
+	cl.T.Fatalf("AddNode %s: %v", o.Nodename, err)
+	return nil
+}
+
+func addNode(cl *ckit.Cluster, s ckit.NodeSpec) *types.Node { return addNodeOpts(cl, cl.AddNodeOptions(s)) }
